@@ -297,8 +297,20 @@ class MockCA:
         return bool(r.get("valid")), r
 
     def problem(self, status, typ, detail="mock"):
+        if self.o.get("problem_style") == "minimal":      # RFC 7807: every member is optional
+            return {"status": status, "ctype": "application/problem+json", "body": {"type": ERR + typ}}
         return {"status": status, "ctype": "application/problem+json",
                 "body": {"type": ERR + typ, "detail": detail, "status": status}}
+
+    def account_body(self, acc, url):
+        """The account object as served.  `account_body: "boulder"`: like Boulder, no "contact" member when
+        the list is empty, and members this client has no use for."""
+        body = {"status": "valid", "contact": acc["contacts"]}
+        if self.o.get("account_body") == "boulder":
+            if not acc["contacts"]:
+                del body["contact"]
+            body.update({"key": acc["jwk"], "createdAt": "2024-01-01T00:00:00Z", "initialIp": "127.0.0.1"})
+        return body
 
     def annotate(self, jws, rec, path, want_jwk):
         """What a conforming CA checks on a POST, recorded on the request whatever answer is served
@@ -417,7 +429,7 @@ class MockCA:
                     self.by_thumb[key_id] = url
                 acc = self.accounts[url]
             rec["account_created"] = not existing
-            body = {"status": "valid", "contact": acc["contacts"]}
+            body = self.account_body(acc, url)
             if o["orders_url"]:
                 body["orders"] = url + "/orders"
             return {"status": 200 if existing else 201, "body": body, "location": url}
@@ -455,7 +467,7 @@ class MockCA:
                 acc["alg"] = iprot.get("alg")
                 acc["rollovers"] += 1
                 self.by_thumb[json.dumps(acc["jwk"], sort_keys=True)] = kid
-            return {"status": 200, "body": {"status": "valid", "contact": acc["contacts"]}}
+            return {"status": 200, "body": self.account_body(acc, kid)}
         kid, prob = self.check_post(jws, rec, path, False)
         if prob:
             return prob
@@ -472,7 +484,7 @@ class MockCA:
                 if "contact" in payload:
                     acc["contacts"] = payload["contact"]
                     acc["updates"] += 1
-            return {"status": 200, "body": {"status": "valid", "contact": acc["contacts"]}}
+            return {"status": 200, "body": self.account_body(acc, kid)}
         if kind == "newOrder":
             try:
                 payload = json.loads(payload_raw.decode())
